@@ -509,7 +509,7 @@ static int sign_syntactic(const Poly& p) {
   return sg;
 }
 
-enum Rel { R_LT, R_LE, R_EQ };
+enum Rel : int { R_LT, R_LE, R_EQ };
 static z3::expr z_rel(const Poly& p, Rel r) { z3::expr e = z_of(p); return r == R_LT ? e < 0 : r == R_LE ? e <= 0 : e == 0; }
 static bool feasible(const z3::expr& c, std::initializer_list<const Poly*> polys, bool* unknown = nullptr, unsigned timeout_ms = 0) {
   Engine& e = E();
@@ -771,6 +771,8 @@ static SC sincos_poly(const Poly& p) {
   return sincos_generic(p);
 }
 
+enum Rel : int;
+static bool decide(const Poly& p, Rel rel);
 static SymReal atan2_sym(const Poly& y, const Poly& x) {
   Engine& e = E();
   mpq_class cy, cx;
@@ -784,7 +786,17 @@ static SymReal atan2_sym(const Poly& y, const Poly& x) {
     if (cy == -cx) return mk(p_const(cx > 0 ? mpq_class(-pi / 4) : mpq_class(3 * pi / 4)));
   }
   // angle atom theta in (-pi, pi] with sin(theta)*h = y, cos(theta)*h = x, h = sqrt(x^2+y^2) > 0
-  // canonical key: direction only (scale-free) is not attempted; key on (y,x)
+  // canonical key: (y,x) and (-y,-x) share one atom, the opposite direction is theta -+ pi
+  {
+    const Poly& lead = y.empty() ? x : y;
+    if (!lead.empty() && p_lead(lead) < 0 && !(ry && rx)) {
+      SymReal t0 = atan2_sym(p_neg(y), p_neg(x));
+      Poly pt0 = P(t0);
+      bool positive = decide(p_neg(pt0), R_LT);          // theta0 > 0 ?
+      mpq_class pi = PI_Q();
+      return mk(p_add(pt0, p_const(positive ? mpq_class(-pi) : pi)));
+    }
+  }
   Poly h2 = p_add(p_mul(x, x), p_mul(y, y));
   bool unk = false;
   if (feasible(z_of(h2) == 0, {&h2}, &unk, E().pol.aux_timeout_ms)) {
